@@ -278,7 +278,10 @@ func runC15(c *Ctx) {
 				_, isSlice := t.(*types.Slice)
 				bt, isBasic := t.(*types.Basic)
 				needs := isSlice || isIface && !isWriterType(p.Type()) || isBasic && (bt.Info()&types.IsString != 0 || bt.Kind() == types.UnsafePointer)
-				if !needs || p.Name() == "bufPtr" {
+				if isBasic && bt.Kind() == types.UnsafePointer && len(fn.Params) == 2 && isWriterType(fn.Params[0].Type()) {
+					continue // the raw writer's hidden pointer (doRealWrite): it is the one noEscape launders
+				}
+				if !needs {
 					continue
 				}
 				found := false
@@ -738,40 +741,61 @@ func c15Width(c *Ctx, fprintf *ssa.Function) {
 	nphi, nedges := 0, 0
 	bad := ""
 	var where []string
-	for _, in := range g.Ins {
-		phi, ok := in.(*ssa.Phi)
-		if !ok || phi.Comment != "padLen" {
-			continue
+	// accumulate form: 10*<an integer merge variable> + ch - 48
+	accForm := func(pv Poly) bool {
+		if pv[""] != -48 || len(pv) != 3 {
+			return false
 		}
-		nphi++
+		ten, ch := false, false
+		for k, v := range pv {
+			switch {
+			case k == "":
+			case v == 10 && strings.HasPrefix(k, "phi:"):
+				ten = true
+			case v == 1:
+				ch = true
+			}
+		}
+		return ten && ch
+	}
+	digitEdges := func(phi *ssa.Phi) []int {
+		var out []int
 		pe := g.predEdges(phi.Block())
-		for i, e := range phi.Edges {
+		for i := range phi.Edges {
 			ef := g.FactsAt(pe[i].From)
 			if ft, ok := g.EdgeFact(pe[i].From, pe[i].K); ok {
 				ef = append(ef, ft)
 			}
-			if !hasFact(ef, isDigitLo) || !hasFact(ef, isDigitHi) {
-				continue
+			if hasFact(ef, isDigitLo) && hasFact(ef, isDigitHi) {
+				out = append(out, i)
 			}
+		}
+		return out
+	}
+	// the width variable's merge points: integer phis with a digit-guarded
+	// operand in accumulate form
+	for _, in := range g.Ins {
+		phi, ok := in.(*ssa.Phi)
+		if !ok || !isIntegral(phi.Type()) {
+			continue
+		}
+		des := digitEdges(phi)
+		isWidth := false
+		for _, i := range des {
+			if accForm(z.Of(phi.Edges[i])) {
+				isWidth = true
+			}
+		}
+		if !isWidth {
+			continue
+		}
+		nphi++
+		pe := g.predEdges(phi.Block())
+		for _, i := range des {
 			nedges++
 			c.Evals++
-			pv := z.Of(e)
-			// 10*<padLen phi> + ch - 48
-			okForm := false
-			if pv[""] == -48 && len(pv) == 3 {
-				ten, ch := false, false
-				for k, v := range pv {
-					switch {
-					case k == "":
-					case v == 10 && strings.HasPrefix(k, "phi:padLen"):
-						ten = true
-					case v == 1:
-						ch = true
-					}
-				}
-				okForm = ten && ch
-			}
-			if !okForm {
+			pv := z.Of(phi.Edges[i])
+			if !accForm(pv) {
 				bad = "after a width digit the width is " + pv.String() + ", expected 10*padLen + (digit - '0') unconditionally: part of the requested width is dropped"
 				where = append(where, g.posOf(pe[i].From))
 			}
